@@ -171,6 +171,9 @@ def build_plans(world):
 
     def snapshot(tag):
         return [{"op": "dump", "k": obj, "ext": True, "tag": tag}, {"op": "write", "k": obj, "dir": "$ROOT/out", "name": "snap.conf", "readback": True, "tag": tag + "w"}]
+    # the very first observation takes the listings and values BEFORE it asks for tags and path; the regular
+    # snapshots ask the other way round - both must agree
+    ops.append({"op": "dump", "k": obj, "ext": True, "order": 1, "tag": "dfirst"})
     ops += snapshot("d0")
     for n, q in enumerate(world["queries"]):
         for e in q_exec(q):
@@ -207,6 +210,8 @@ def check(world, plans, results):
         v.probe("ctor_failed")
         return v
     d0 = canon(strip_volatile(bytag["d0"][0]))
+    if canon(strip_volatile(bytag["dfirst"][0])) != d0:
+        v.fail("mutated:dump", "two complete listings in a row differ (a tag/path query or a getter inside the listing changed the object): %s" % first_diff(bytag["dfirst"][0], bytag["d0"][0]))
     w0 = canon(strip_volatile(bytag["d0w"][0]))
     kinds = set()
     failing = False
